@@ -31,6 +31,9 @@ def run():
         C.say("built " + r)
     C.require_build("gensim", features=["extras"], variant="extras")
     C.say("built gensim (grammar-extras)")
+    from . import c20real
+    c20real.build_host()
+    C.say("built the derive with the nightly toolchain (real-bridge tier)")
     # option variants of parsesim used by the C20 configuration swarm (warm the per-variant target dirs)
     from . import c20
     bins, failed = c20.build_variants(list(c20.VARIANTS))
